@@ -18,7 +18,7 @@ import progs
 import vcheck as V
 
 cp = progs.cp
-N_PROGRAMS = {"quick": 8, "thorough": 60}
+N_PROGRAMS = {"quick": 10, "thorough": 120}
 
 
 # ------------------------------------------------- inputs: paths and filters
@@ -407,7 +407,7 @@ def push_order_level(res, tier, seed):
     does not mention the order."""
     rnd = random.Random(seed * 31 + 5)
     runs = []
-    for k in range({"quick": 12, "thorough": 80}[tier]):
+    for k in range({"quick": 20, "thorough": 200}[tier]):
         prog = progs.gen_program(rnd, f"o{k}", roots=2 if rnd.random() < 0.15 else 1)
         cfg = progs.gen_config(rnd, prog, action=rnd.choice(["test", "list", "list_terse"]),
                                paths=check_runner.display_paths(prog))
@@ -422,7 +422,7 @@ def push_order_level(res, tier, seed):
     # node exists only once the generic instances are inserted), every order of
     # the group entries
     import itertools
-    for k in range({"quick": 6, "thorough": 30}[tier]):
+    for k in range({"quick": 10, "thorough": 80}[tier]):
         line = [0]
         def loc():
             line[0] += rnd.randint(2, 7)
